@@ -29,6 +29,11 @@ Tie between model and source
 * stream `relabel`: a spec trained on one frame is materialised, through every spec-based entry point, output type and
   materializer, on rows whose pandas labels are not 0..n-1; oracle: every variant equals the matrix of the same rows under
   fresh labels, pandas outputs carry the kept rows' labels by position (no model).
+* stream `perspec`: a ModelSpecs whose parts cannot share a materializer (different materializers / constructor params), on
+  data whose parts have nulls on DIFFERENT rows, for every output type and with / without a caller's drop set: the parts
+  from `ModelSpecs.get_model_matrix` (per-spec branch), `model_matrix(specs, data)`, the method with overrides and ONE
+  pandas / narwhals materializer's `get_model_matrix(specs)` (joint) must hold the same numbers, names and rows, equal to
+  each part's formula alone on the data without the rows to be dropped; the caller's set ends up as exactly those rows (no model).
 * stream `wrapper`: copy / deepcopy / pickle of a ModelMatrix of each output type and the leaf checks of ModelMatrices /
   ModelSpecs, against `Model/Wrapper.lean`.
 * stream `sparseops`: the real `scipy.sparse` operations the sparse path uses (`csc_matrix(dense)`, `.multiply`,
@@ -95,7 +100,8 @@ TRUSTED = [
     "implementation's own outputs) and by `kind_tables_agree`; narwhals/pyarrow conversions are not proved. "
     "`same_numbers_any_output_any_entry` is about the model: what a formula evaluates to on the data (`content`) is a parameter there",
     "reuse of a spec that already has structure (`ScopedTerm.rehydrate`, `_enforce_structure`, recorded encoder state), also on "
-    "rows with other pandas labels (stream `relabel`), and reuse of one materializer instance for several calls, also after a "
+    "rows with other pandas labels (stream `relabel`), the numbers of a ModelSpecs generated part by part against the same specs "
+    "generated jointly by one materializer (stream `perspec`), and reuse of one materializer instance for several calls, also after a "
     "call that raised (stream `reuse`), are not modelled: these streams compare the real code's matrices with one another "
     "(spec-based vs formula-based entry points; relabelled rows vs the same rows under 0..n-1; reused vs fresh instance); only "
     "the plumbing of the spec-based calls is tied to `requestVia`",
@@ -146,6 +152,11 @@ RULE = (
     "pandas / pyarrow / dict / record array / narwhals stable / narwhals main / a list). registry: one sweep of every probe kind x 6 "
     "outputs on the live registry, then 0-4 random extra classes (own/inherited/empty/duplicate names, 0-3 declared input types, 0-3 "
     "outputs, precedences with ties, SUPPORTS_INPUT sets) on the live or an empty registry and 3-8 for_data / for_materializer queries. "
+    "perspec: frames of 5-9 rows (20 thorough) with columns x, z, w (float) and a (text); 2-3 parts reading disjoint columns, "
+    "recorded by different materializers and/or constructor params; in 55% of the cases every part has two null rows and no row is "
+    "shared between parts, otherwise 0-2 null rows in some parts; na_action drop (80%) / ignore; a caller's drop set in 40%; 30% "
+    "with specs trained part by part; 3 outputs x {specs method, top-level function, method with overrides, pandas materializer, "
+    "narwhals materializer} + the per-part reference. "
     "wrapper: 0-4 copy/deepcopy/pickle operations on a matrix of each output type, 0-3 leaves offered to ModelMatrices/ModelSpecs. "
     "sparseops: random sparse/dense columns of 0-7 rows, 1-3 factors per term, 1-3 terms. "
     "non-trivial = outputs case with an interaction or a categorical column, reuse case with two different calls, entry case "
@@ -1444,6 +1455,158 @@ def oracle_relabel(c, o):
     return None
 
 
+# ----------------------------------------------------------------------------- stream `perspec`
+# NUMBERS of the PER-SPEC branch. A ModelSpecs whose parts cannot share a materializer (lhs recorded by pandas, rhs by
+# narwhals, or different constructor params) is generated part by part by `ModelSpecs.get_model_matrix`; the same specs
+# handed to a materializer's own `get_model_matrix` are generated jointly by that ONE materializer; `model_matrix(specs,
+# data)` and the method with overrides are further entry points. Same formulas, data and options: every part must hold the
+# same numbers under the same names with the same rows, whichever way it was asked for — on data whose parts have nulls on
+# DIFFERENT rows (the rows one part finds must also leave the parts generated before it), for every output type, with or
+# without a caller-supplied drop set. Fresh specs are also compared with each part's formula materialised alone on the data
+# with the rows to be dropped already removed. No model: the implementation is compared with itself.
+
+PERSPEC_PARTS = [
+    # (columns the part reads, formulas over them)
+    (["x"], ["x", "x + I(x * x)", "dbl(x)"]),
+    (["z", "a"], ["z + a", "a:z", "C(a) + z", "0 + a + z"]),
+    (["w"], ["w", "arr2(w)", "w - 1"]),
+]
+
+
+def gen_perspec_case(rng, tier):
+    n = rng.randint(5, 9 if tier != "thorough" else 20)
+    nparts = rng.choice([2, 2, 3])
+    keys = ["lhs", "rhs", "extra"][:nparts]
+    rows = list(range(n))
+    rng.shuffle(rows)
+    nulls = {}
+    if rng.random() < 0.55:
+        # at least two null rows in EVERY part, no row shared between parts
+        k = max(1, min(2, (n - 1) // nparts))
+        for i in range(nparts):
+            nulls[i] = sorted(rows[i * k:(i + 1) * k])
+    else:
+        # nulls only in some parts (possibly overlapping rows, possibly none)
+        for i in range(nparts):
+            nulls[i] = sorted(rng.sample(range(n), rng.choice([0, 0, 1, 2]))) if rng.random() < 0.5 else []
+    cols = {}
+    for name in ("x", "z", "w"):
+        cols[name] = [fstr(Fraction(rng.randint(-8, 8), rng.choice([1, 2]))) for _ in range(n)]
+    cols["a"] = [rng.choice(["u", "v", "t"]) for _ in range(n)]
+    for i in range(nparts):
+        used = PERSPEC_PARTS[i][0]
+        for r in nulls[i]:
+            cols[rng.choice(used)][r] = None
+    mats = rng.choice([["pandas", "narwhals", "pandas"], ["narwhals", "pandas", "narwhals"], ["pandas", "pandas", "pandas"], ["narwhals", "narwhals", "narwhals"]])
+    params = rng.choice([[0, 0, 0], [1, 0, 1], [0, 1, 0]])
+    if len(set(mats[:nparts])) == 1 and len(set(params[:nparts])) == 1:
+        params = [1, 0, 1]  # otherwise the parts could share a materializer: not the branch under test
+    parts = [dict(key=keys[i], formula=rng.choice(PERSPEC_PARTS[i][1]), materializer=mats[i], params=params[i]) for i in range(nparts)]
+    return dict(kind="perspec", cols=cols, parts=parts, na=rng.choice(["drop", "drop", "drop", "drop", "ignore"]), efr=rng.random() < 0.7,
+                drop=(sorted(rng.sample(range(n), rng.choice([0, 1, 2]))) if rng.random() < 0.4 else None), trained=rng.random() < 0.3)
+
+
+def impl_perspec(c):
+    from formulaic import ModelSpec, ModelSpecs, model_matrix
+    from formulaic.materializers import FormulaMaterializer
+
+    df = pandas.DataFrame({k: ([numpy.nan if v is None else float(Fraction(v)) for v in vals] if k != "a" else pandas.Series(vals, dtype=object))
+                           for k, vals in c["cols"].items()})
+    n = len(df)
+    keys = [p["key"] for p in c["parts"]]
+
+    def specs_for(output, with_output=True):
+        leaves = {}
+        for p in c["parts"]:
+            ms = ModelSpec(formula=p["formula"], materializer=p["materializer"], materializer_params=PARAMS[p["params"]],
+                           ensure_full_rank=c["efr"], na_action=c["na"], output=output if with_output else None)
+            if c["trained"]:
+                # the spec a first materialisation of this part ALONE recorded (structure, levels, its own materializer)
+                ms = ms.get_model_matrix(df, context=dict(CONTEXT)).model_spec
+                ms = ms.update(output=output if with_output else None)
+            leaves[p["key"]] = ms
+        return ModelSpecs(**leaves)
+
+    def observe(label, output, fn):
+        d = None if c["drop"] is None else set(c["drop"])
+        try:
+            with warnings.catch_warnings():
+                warnings.simplefilter("ignore")
+                res = fn(d)
+        except Exception as e:
+            return {"error": type(e).__name__, "msg": str(e)[:160]}
+        out = {"parts": {}, "dropset": None if d is None else sorted(int(i) for i in d)}
+        for k in keys:
+            out["parts"][k] = _matrix_obs(getattr(res, k), output)
+        return out
+
+    variants = {}
+    for output in OUTPUTS:
+        ctx = lambda: dict(CONTEXT)
+        variants[f"specs|{output}"] = observe("specs", output, lambda d: specs_for(output).get_model_matrix(df, context=ctx(), drop_rows=d))
+        variants[f"sugar|{output}"] = observe("sugar", output, lambda d: model_matrix(specs_for(output), df, context=ctx(), drop_rows=d))
+        variants[f"specs_ov|{output}"] = observe("specs_ov", output, lambda d: specs_for(output, False).get_model_matrix(df, context=ctx(), drop_rows=d, output=output))
+        for name in ("pandas", "narwhals"):
+            # ONE materializer generates all parts jointly
+            variants[f"materializer[{name}]|{output}"] = observe(
+                "materializer", output, lambda d: FormulaMaterializer.for_materializer(name)(df, context=ctx()).get_model_matrix(specs_for(output), drop_rows=d))
+    # the rows that have to go: the caller's, and under the drop policy every row with a null in a column some part reads
+    gone = set(c["drop"] or [])
+    if c["na"] == "drop":
+        for i, p in enumerate(c["parts"]):
+            for col in PERSPEC_PARTS[i][0]:
+                if col in p["formula"]:
+                    gone |= {r for r in range(n) if c["cols"][col][r] is None}
+    reference = None
+    if not c["trained"]:
+        clean = df.drop(index=sorted(gone))
+        reference = {}
+        for p in c["parts"]:
+            try:
+                with warnings.catch_warnings():
+                    warnings.simplefilter("ignore")
+                    mm = model_matrix(p["formula"], clean, context=dict(CONTEXT), output="numpy", na_action="ignore",
+                                      ensure_full_rank=c["efr"], materializer="pandas")
+                reference[p["key"]] = _matrix_obs(mm, "numpy")
+            except Exception as e:
+                reference[p["key"]] = {"error": type(e).__name__, "msg": str(e)[:160]}
+    return {"variants": variants, "reference": reference, "kept": n - len(gone), "gone": sorted(gone)}
+
+
+def oracle_perspec(c, o):
+    vs = o["variants"]
+    names = list(vs)
+    what = f"ModelSpecs of {len(c['parts'])} parts recorded by {[(p['materializer'], p['params']) for p in c['parts']]} (na_action={c['na']})"
+    failing = [n for n in names if "error" in vs[n]]
+    if failing and len(failing) != len(names):
+        good = next(n for n in names if "error" not in vs[n])
+        e = vs[failing[0]]
+        return f"{what}: {failing[0]} fails with {e['error']} ({e.get('msg', '')}) while {good} produces matrices"
+    if failing:
+        return None
+    first = names[0]
+    fake = dict(formula=" ".join(p["formula"] for p in c["parts"]))
+    for n in names:
+        v = vs[n]
+        for k, part in v["parts"].items():
+            why = _non_numeric_cell(part)
+            if why:
+                return f"{what}: {n}, part {k}: {why}"
+            if part["shape"][0] != o["kept"]:
+                return (f"{what}: {n}, part {k} has {part['shape'][0]} rows; {o['kept']} rows remain once the rows {o['gone']} "
+                        f"(the caller's and those with a null in a column some part reads) are dropped")
+            why = _compare_variants(fake, vs[first]["parts"][k], part, f"{first} part {k}", f"{n} part {k}")
+            if why:
+                return f"{what}: {why}"
+            if o["reference"] is not None and "error" not in o["reference"][k]:
+                why = _compare_variants(fake, o["reference"][k], part, f"part {k} alone on the data without the rows {o['gone']}", f"{n} part {k}")
+                if why:
+                    return f"{what}: {why}"
+        if v["dropset"] is not None and v["dropset"] != o["gone"]:
+            return f"{what}: {n} leaves the caller's drop set as {v['dropset']}, the rows dropped are {o['gone']}"
+    return None
+
+
 # ----------------------------------------------------------------------------- stream `wrapper`
 # The ModelMatrix proxy itself (model_matrix.py): a random sequence of copy.copy / copy.deepcopy / pickle round trips
 # applied to a real model matrix of each output type must leave the numbers and the attached spec's column names alone
@@ -2105,6 +2268,7 @@ def cases(rng, tier):
     n_reg = {"quick": 160, "thorough": 2500, "search": 80}[tier]
     n_relabel = {"quick": 60, "thorough": 700, "search": 50}[tier]
     n_wrap = {"quick": 60, "thorough": 600, "search": 30}[tier]
+    n_perspec = {"quick": 40, "thorough": 500, "search": 60}[tier]
     for _ in range(n_out):
         yield gen_outputs_case(rng, tier)
     for _ in range(n_reuse):
@@ -2115,6 +2279,8 @@ def cases(rng, tier):
         yield gen_relabel_case(rng, tier)
     for _ in range(n_wrap):
         yield gen_wrapper_case(rng)
+    for _ in range(n_perspec):
+        yield gen_perspec_case(rng, tier)
     yield gen_registry_case(rng, sweep=True)
     for _ in range(n_reg):
         yield gen_registry_case(rng)
@@ -2136,6 +2302,8 @@ def describe(c):
         return f"relabel,{c['index']},na={c['na']}"
     if k == "wrapper":
         return f"wrapper,{c['output']},ops={len(c['ops'])}"
+    if k == "perspec":
+        return f"perspec,parts={len(c['parts'])},na={c['na']},trained={c['trained']}"
     return f"sparse,{c['op']}"
 
 
@@ -2154,6 +2322,8 @@ def nontrivial(c):
         return True
     if k == "wrapper":
         return len(c["ops"]) >= 2 or len(c["items"]) >= 2
+    if k == "perspec":
+        return True
     return c["op"] == "pipeline" and any(len(t["factors"]) >= 2 for t in c["terms"]) or c["op"] in ("mul", "encode")
 
 
@@ -2171,6 +2341,8 @@ def impl(c):
         return impl_relabel(c)
     if k == "wrapper":
         return impl_wrapper(c)
+    if k == "perspec":
+        return impl_perspec(c)
     return impl_sparse(c)
 
 
@@ -2178,7 +2350,7 @@ def request(c, o):
     if "harness_exception" in o or "skip" in o:
         return dict(op="noop")
     k = c["kind"]
-    if k in ("reuse", "relabel"):
+    if k in ("reuse", "relabel", "perspec"):
         return dict(op="noop")  # no model: the stream compares the implementation with itself
     if k == "outputs":
         return outputs_request(c, o)
@@ -2199,7 +2371,7 @@ def agree(c, o, m):
     if "error" in m and len(m) == 1:
         return "engine: " + str(m["error"])
     k = c["kind"]
-    if k in ("reuse", "relabel"):
+    if k in ("reuse", "relabel", "perspec"):
         return None
     if k == "outputs":
         return agree_outputs(c, o, m)
@@ -2228,6 +2400,8 @@ def oracle(c, o):
         return oracle_relabel(c, o)
     if k == "wrapper":
         return oracle_wrapper(c, o)
+    if k == "perspec":
+        return oracle_perspec(c, o)
     return oracle_sparse(c, o)
 
 
